@@ -447,6 +447,39 @@ Definition transform (im : image) (o : xopts) : xerr + image :=
                    slots (map mk srcs))
   end.
 
+(* the destination (workspace) virtual arrays after jtransform_execute_transform, padding strips
+   included: per output component the extent of the iteration space and the array content
+   ([] when no workspace array is used: plain copy, or the in-place horizontal flip) *)
+Definition needs_workspace (op : xop) (slow : bool) (p : plan) : bool :=
+  match op with
+  | XNone => negb ((p_xco p =? 0) && (p_yco p =? 0))
+  | XFlipH => negb (p_yco p =? 0) || slow
+  | _ => true
+  end.
+
+Definition transform_pad (im : image) (o : xopts) : xerr + list (Z * Z * (Z -> Z -> option blk)) :=
+  match request_workspace im o with
+  | inl e => inl e
+  | inr p =>
+      if negb (quant_ok im) then inl EQuantReuse else
+      if xo_gray o && negb (gray_ok im) then inl ENoGray else
+      let op := xo_op o in
+      if negb (needs_workspace op (xo_slow o) p) then inr [] else
+      let tr := transposes op in
+      let srcs := firstn (Z.to_nat (p_nc p)) (i_comps im) in
+      let samps := map (dst_samp (p_nc p) tr) srcs in
+      let mh := fold_right (fun s m => Z.max (fst s) m) 1 samps in
+      let mv := fold_right (fun s m => Z.max (snd s) m) 1 samps in
+      let mk c :=
+        let hs := fst (dst_samp (p_nc p) tr c) in
+        let vs := snd (dst_samp (p_nc p) tr c) in
+        let wb := cdiv (p_ow p * hs) (mh * 8) in
+        let hb := cdiv (p_oh p * vs) (mv * 8) in
+        let g := mkgeom hs vs wb hb (c_wb c) (i_w im) (i_h im) mh mv (p_xco p) (p_yco p) in
+        (if tr then cdiv wb hs * hs else wb, cdiv hb vs * vs, exec_nest op (xo_slow o) g (c_blk c)) in
+      inr (map mk srcs)
+  end.
+
 (* ------------------------------------------------- tj3Transform wrapper *)
 Record tjx := mktjx {
   t_op : xop; t_perfect : bool; t_trim : bool; t_gray : bool; t_crop : bool;
